@@ -280,10 +280,17 @@ func genCrc() {
 			}
 			emit("Definition ReqClusterNodes : list N := %s. (* %s *)\n", coqBytes(s), comment(s))
 			found++
+		case "ReqAsking":
+			s, ok := evalString(d.expr, nil)
+			if !ok {
+				fail("ReqAsking not literal")
+			}
+			emit("Definition ReqAsking : list N := %s. (* %s *)\n", coqBytes(s), comment(s))
+			found++
 		}
 	}
-	if found != 2 {
-		fail("constant.go: expected RedisClusterSlots and ReqClusterNodes")
+	if found != 3 {
+		fail("constant.go: expected RedisClusterSlots, ReqClusterNodes and ReqAsking")
 	}
 	emit("\n")
 }
